@@ -30,13 +30,18 @@ Inductive repkind := RActiveValue | ROmpMax | RTaskThreads | RConst (k : Z) | RO
 Inductive istmt :=
   | IAssignFresh     (* g_tasking_handle = make_unique<tasking_system_handle>(numThreads): the right-hand side — the NEW
                         handle — is constructed first, then unique_ptr::operator= releases the old one *)
-  | IAssignOther | IGuardedAssign | IModifiesParam | IReturn | IOtherHandleUse.
+  | IAssignOther | IGuardedAssign | IModifiesParam | IReturn | IOtherHandleUse
+  | IUnknownStmt.    (* any other statement (only "if (flushDenormals) { MXCSR macros }" is ignored) *)
+(* COMPLETE list of what a handle constructor body does *)
+Inductive cstmt := CInstall  (* the recognised installation of the limit, calling nothing else *)
+                 | CUnknown. (* any other statement or call: fails closed *)
 
 Record facts := {
   f_tbb_guard : guard;  f_tbb_value_is_n : bool;    (* when the global_control is created; its value is numThreads *)
   f_omp_guard : guard;  f_omp_value_is_n : bool;    (* when omp_set_num_threads is called; with numThreads *)
   f_int_call_guard : guard;  f_int_arg : iarg;      (* the call of initTaskSystemInternal and its argument *)
   f_ctor_param_unmodified : bool;                   (* no constructor assigns to its parameter; the Debug constructor calls nothing *)
+  f_ctor_stmts_tbb : list cstmt;  f_ctor_stmts_omp : list cstmt;  f_ctor_stmts_int : list cstmt;  f_ctor_stmts_dbg : list cstmt;
   f_ts_steps : list tsstep;
   f_rep_tbb : repkind;  f_rep_omp : repkind;  f_rep_int : repkind;  f_rep_dbg : repkind;
   f_int_query_is_numthreads : bool;   (* numThreadsTaskSystemInternal = g_ts->GetNumTaskThreads() = m_NumThreads = Initialize's argument *)
@@ -80,8 +85,18 @@ Fixpoint run_ts (f : facts) (hw : Z) (steps : list tsstep) (nt : Z) (fresh done 
   | _ => None
   end.
 
+Definition cstmt_is_install (s : cstmt) := match s with CInstall => true | CUnknown => false end.
+(* the constructor does exactly one thing (TBB / OpenMP / Internal) or nothing (Debug) *)
+Definition ctor_complete (f : facts) (b : backend) : bool :=
+  match b with
+  | TBB => match f_ctor_stmts_tbb f with [s] => cstmt_is_install s | _ => false end
+  | OMP => match f_ctor_stmts_omp f with [s] => cstmt_is_install s | _ => false end
+  | Internal => match f_ctor_stmts_int f with [s] => cstmt_is_install s | _ => false end
+  | Debug => match f_ctor_stmts_dbg f with [] => true | _ => false end
+  end.
+
 Definition g_construct (f : facts) (b : backend) (hw n : Z) (w : world) : option (handle * world) :=
-  if negb (f_ctor_param_unmodified f) then None else
+  if negb (f_ctor_param_unmodified f && ctor_complete f b) then None else
   match b with
   | TBB => match eval_guard (f_tbb_guard f) n with
            | Some true => if f_tbb_value_is_n f
